@@ -1215,9 +1215,134 @@ fn mpqsroots(rng: &mut Rng, iters: u64) {
     }
 }
 
+
+/// order of the generator of the ECM curve that `ecm::ecm(p * q128, 1, ..)` uses, modulo the prime p (group order
+/// searched in the Hasse interval among the multiples of 12, then reduced); None if the curve cannot be built
+fn ecm_order_mod_p(p: u64, seed: u32) -> Option<u64> {
+    use yamaquasi::arith_montgomery::ZmodN;
+    use yamaquasi::ecm::{Curve, Suyama11};
+    let zp = ZmodN::new(Uint::from(p));
+    let suy = Suyama11::new(&zp).ok()?;
+    let pt = suy.element(seed).ok()?;
+    let g = suy.params_point(&pt).ok()?;
+    let c = Curve::twisted_from_point(zp.clone(), g).ok()?;
+    let limbs = |s: &str| -> Vec<u128> {
+        s.split("MInt([").skip(1).map(|t| t.split(',').next().unwrap().trim().parse::<u128>().unwrap()).collect()
+    };
+    let is_neutral = |k: u64| -> bool {
+        let q = c.scalar64_mul_dbladd(k, c.gen());
+        let v = limbs(&format!("{:?}", q));
+        v.len() == 3 && v[0] == 0 && v[1] == v[2] && v[1] != 0
+    };
+    let rt = (p as f64).sqrt() as u64 + 1;
+    let (lo, hi) = (p + 1 - 2 * rt, p + 1 + 2 * rt);
+    let mut n0 = lo / 12 * 12;
+    let mut order = None;
+    while n0 <= hi { if n0 >= lo && is_neutral(n0) { order = Some(n0); break; } n0 += 12; }
+    let mut ord = order?;
+    let mut m = ord; let mut f = 2;
+    let mut fs = vec![];
+    while f * f <= m { if m % f == 0 { fs.push(f); while m % f == 0 { m /= f; } } f += 1; }
+    if m > 1 { fs.push(m); }
+    for f in fs { while ord % f == 0 && is_neutral(ord / f) { ord /= f; } }
+    Some(ord)
+}
+
+/// what remains of the order after stage 1 with bound b1: ord / gcd(ord, E), E = product of the maximal prime powers
+/// below b1, times 16 * 3 (the exponent of SmoothBase::new)
+fn ecm_residual_order(mut ord: u64, b1: u64) -> u64 {
+    let mut q = 2;
+    while q < b1 {
+        if is_prime_td(q) {
+            let mut pow = q; while pow * q < b1 { pow *= q; }
+            if q == 2 { pow *= 16; } if q == 3 { pow *= 3; }
+            let mut e = pow; while e > 1 && e % q == 0 { if ord % q == 0 { ord /= q; } e /= q; }
+        }
+        q += 1;
+    }
+    ord
+}
+
+/// hidden helper (not part of any check): search primes p for which ECM with (b1, b2) must succeed in stage 2
+fn ecmsearch(iters: u64) {
+    use std::str::FromStr;
+    let q128 = Uint::from_str("192361420203955321314102766284003105319").unwrap();
+    for (b1, b2) in [(100u64, 5.04e3f64), (150, 20e3)] {
+        let (_r, d1, d2) = yamaquasi::params::stage2_params(b2);
+        let mut p = (1u64 << 20) + 1; let mut found = 0;
+        while found < iters {
+            p += 2; if !is_prime_td(p) { continue; }
+            let n = Uint::from(p) * q128;
+            let seed = std::cmp::max(2, n.digits()[0].wrapping_mul(3) as u32);
+            let Some(ord) = ecm_order_mod_p(p, seed) else { continue };
+            let l = ecm_residual_order(ord, b1);
+            if l > d1 && l + d1 / 2 < d1 * d2 && is_prime_td(l) {
+                let a = (l + d1 / 2) / d1; let b = l as i64 - (a * d1) as i64;
+                println!("({b1}, {b2:e}, {p}), // ord {ord} l {l} = {a} * {d1} + {b}");
+                found += 1;
+            }
+        }
+    }
+}
+
+
+/// C16 probe for ECM (bounded stand-in: ecm_curve is not under contract): for primes p such that the generator of the
+/// curve that ecm(p * q128, 1 curve) uses has order (B1-smooth part) * l modulo p, l a prime of the stage-2 grid
+/// (the order is computed here from the public curve arithmetic), one run must separate p; the primes are chosen so
+/// that l = a d1 + b covers the first / last giant steps and the smallest / largest baby steps, plus generic ones
+fn ecmstage2(_rng: &mut Rng, iters: u64) {
+    use std::str::FromStr;
+    use yamaquasi::{Preferences, Verbosity};
+    let q128 = Uint::from_str("192361420203955321314102766284003105319").unwrap();
+    let mut prefs = Preferences::default();
+    prefs.verbosity = Verbosity::Silent;
+    fn gcd(a: u64, b: u64) -> u64 { if b == 0 { a } else { gcd(b, a % b) } }
+    let (scan, generic) = if iters < 1000 { (1500u64, 10usize) } else { (20000, 120) };
+    for (b1, b2) in [(100u64, 5.04e3f64), (150, 20e3)] {
+        let (_r, d1, d2) = yamaquasi::params::stage2_params(b2);
+        let bs: Vec<u64> = (1..d1 / 2).filter(|&b| gcd(b, d1) == 1).collect();
+        let edge_b = [bs[0], bs[1], bs[bs.len() - 1], bs[bs.len() - 2]];
+        let mut picked: Vec<(u64, u64, u64)> = vec![];   // (p, l, class)
+        let mut seen_class = std::collections::HashSet::new();
+        let mut ngeneric = 0;
+        let mut p = (1u64 << 20) + 1;
+        for _ in 0..scan {
+            p += 2; while !is_prime_td(p) { p += 2; }
+            let n = Uint::from(p) * q128;
+            let seed = std::cmp::max(2, n.digits()[0].wrapping_mul(3) as u32);
+            let Some(ord) = ecm_order_mod_p(p, seed) else { continue };
+            let l = ecm_residual_order(ord, b1);
+            if !(l > d1 && l + d1 / 2 < d1 * d2 && is_prime_td(l)) { continue; }
+            let a = (l + d1 / 2) / d1;
+            let b = (l as i64 - (a * d1) as i64).unsigned_abs();
+            let mut class = 0u64;
+            if edge_b.contains(&b) { class = 1000 + b; }
+            if a <= 2 || a + 2 >= d2 { class = 2000 + a; }
+            if class != 0 && seen_class.insert((class, l > a * d1)) { picked.push((p, l, class)); }
+            else if ngeneric < generic { ngeneric += 1; picked.push((p, l, 0)); }
+        }
+        for (p, l, _class) in picked {
+            let n = Uint::from(p) * q128;
+            let a = (l + d1 / 2) / d1;
+            let b = l as i64 - (a * d1) as i64;
+            match catch_unwind(AssertUnwindSafe(|| yamaquasi::ecm::ecm(n, 1, b1 as usize, b2, &prefs, None))) {
+                Err(_) => fail("ecmstage2", format!("ecm({n}, 1 curve, B1 {b1}, B2 {b2:e}): panic")),
+                Ok(None) => fail("ecmstage2", format!("ecm(p * q128, 1 curve, B1 {b1}, B2 {b2:e}) = None for p = {p}: the curve generator has order (B1-smooth) * {l} modulo p, l = {a} * {d1} + {b} (d1 = {d1}, d2 = {d2})")),
+                Ok(Some((x, y))) => {
+                    if x * y != n || !(x == Uint::from(p) || y == Uint::from(p)) {
+                        fail("ecmstage2", format!("ecm(p * q128, 1 curve, B1 {b1}, B2 {b2:e}) = ({x}, {y}) does not separate p = {p}"));
+                    }
+                }
+            }
+        }
+    }
+}
+
 pub fn run(case: &str, rng: &mut Rng, iters: u64) -> bool {
     match case {
         "pp1" => pp1_case(),
+        "ecmstage2" => ecmstage2(rng, iters),
+        "ecmsearch" => ecmsearch(iters),
         "mpqsroots" => mpqsroots(rng, iters),
         "stage2edge" => stage2edge(rng, iters),
         "relstore" => relstore(rng, iters),
